@@ -1036,4 +1036,24 @@ theorem leaf_exists (v : Gen.Variant) (k : Sink) (d : Decoder (famOfVariant v)) 
   · intro hl
     exact cur_afterTwo_good v k d.cur hd.cur src hb last cap hcap (hfresh (by rw [hl]; rfl))
 
+/-- **`Decoder.rawCall` of a decoder that is past BOM sniffing** (`Converting`, or
+`ConvertingWithPendingBB` after a replay was cut short): budgets exist for which the call does not
+panic and every inner call is admissible.  (Every decoder is in such a state after its first call
+that reached a variant decoder — `Thm.C07.SettledInv` — and from `Decoder.new` without BOM
+sniffing.)  For the sniffing states the statement per leaf is `leaf_exists`. -/
+theorem rawCall_exists_settled (v : Gen.Variant) (k : Sink) (d : Decoder (famOfVariant v)) (hd : LifeInv v d)
+    (hs : sniffingLife d.life = false) (hnf : d.life ≠ .finished)
+    (src : List Nat) (hb : ∀ b ∈ src, b < 256) (last : Bool) (cap : Nat) (hcap : minCap k ≤ cap) :
+    ∃ b1 b2, DGood k cap (d.rawCall k src last b1 b2) := by
+  have hl := leaf_exists v k d hd src hb last cap hcap
+  obtain ⟨life, c⟩ := d
+  cases life
+  case converting =>
+    obtain ⟨b2, h⟩ := hl.1 0
+    exact ⟨.unlimited, b2, h⟩
+  case convertingWithPendingBB =>
+    exact hl.2.2.2.1 0xBB rfl
+  case finished => exact absurd rfl hnf
+  all_goals cases hs
+
 end EncodingRs.Thm.C06Exists
